@@ -663,6 +663,10 @@ def gen_extra_headers(rng, schema, ds, table, cols, opts):
     if opts.get("sort") and rng.random() < opts["sort"]:
         nk = rng.choice([1, 1, 2, 3])
         sortable = [c for c in cols if c["dtype"] != "ServiceMemberListCol"]
+        cvcols = [c["name"] for c in cols if c["name"] in ("custom_variables", "host_custom_variables")]
+        if cvcols and rng.random() < opts.get("cv_sort_p", 0.08):
+            # a custom variable as sort key, in both directions: rows that lack the variable go last (first when descending)
+            lines.append("Sort: %s %s %s" % (rng.choice(cvcols), rng.choice(CV_NAMES), rng.choice(["asc", "desc", "desc"])))
         for _ in range(nk):
             c = rng.choice(sortable)
             d = rng.choice(["asc", "desc", "asc", "ASC", ""])
